@@ -336,6 +336,7 @@ def fn_copy(ti):
     c = copy.copy(x)
     c.attrs["data_value"] = "v1"
     c.attrs.update(class_="kk", x__=3)
+    c.attrs.update({"pos_arg": 1}, {"pos_two": "t"})
     c.append("copy-child")
     viols = []
     if snap(x) != s0:
@@ -345,7 +346,7 @@ def fn_copy(ti):
     try:
         got = parse_expression(extract_expression(str(texts[0])))
         names = [k for k, _ in got[2]]
-        for want in ("data-value", "class", "x-"):
+        for want in ("data-value", "class", "x-", "pos-arg", "pos-two"):
             if names.count(want) != 1:
                 viols.append(("copy:prop-names", f"prop {want!r} appears {names.count(want)} times in the copy's "
                               f"expression (props: {names})", {}))
